@@ -1188,3 +1188,16 @@ def replay(ctx, data):
         check_cases(ctx, [c], base0, stats)
     finally:
         shutil.rmtree(base0, ignore_errors=True)
+
+
+
+# ----------------------------------------------------------------------------------------------- source tie (DESIGN §4.2)
+# the definitions of Gen/DecisionsLib.v this property's Props file ties to the model (`*_generated_eq_model`): when
+# tools/gen/decisions_lib.py could not translate the current source text the tie is broken and reported
+GEN_LIB_TARGETS = ['should_skip_entry']
+_run_checks = run
+
+
+def run(ctx):
+    _run_checks(ctx)
+    vlib.report_gen_drift(ctx, "decisions_lib", GEN_LIB_TARGETS, bool(ctx.violations))
